@@ -13,8 +13,10 @@ def sanitizer_pass(res, prop, tier, family, harness_src):
     seconds once the sanitizer build of the current tree is cached; a finding replaces a `no-failing-input-found` verdict."""
     binary = C.build_harness(prop.lower() + '_asan', 'fiber_asan', [harness_src])
     broken = bool(res.coverage.get('broken_obligations')) or bool(res.coverage.get('trace_mismatches'))
-    pb = '3' if (tier != 'quick' or broken) else '2'
-    args = ['--family', family, '--sanitizer-pass', '--mode', 'dfs', '--pb', pb, '--pb3', str(int(pb) - 1), '--wb', '1',
+    # quick tier: one preemption (enough for "everything completes between two steps of the registration loop");
+    # thorough tier, or when an obligation / the correspondence is broken and a failing input is wanted: two
+    pb = '2' if (tier != 'quick' or broken) else '1'
+    args = ['--family', family, '--sanitizer-pass', '--mode', 'dfs', '--pb', pb, '--pb3', '1', '--wb', '0' if pb == '1' else '1',
             '--seed', str(C.seed())]
     old = os.environ.get('ASAN_OPTIONS')
     os.environ['ASAN_OPTIONS'] = 'detect_leaks=0:abort_on_error=0:halt_on_error=1'
